@@ -156,6 +156,9 @@ def shards(tier):
     out = []
     for proto in PROTOS:
         variants = [None]
+        if proto in ('json', 'msgpack'):
+            # (the positional fault form of complex_as=list is a writer of its own)
+            variants = [None, {'complex_as': 'list'}]
         if tier == 'thorough' and proto in ('json', 'yaml', 'msgpack', 'msgpackrpc'):
             variants = [None, {'ignore_wrappers': False}, {'complex_as': 'list'}, {'ignore_wrappers': False, 'complex_as': 'list'}]
         for var in variants:
